@@ -16,6 +16,8 @@ SPEC_CODES = {'ParseError': -32700, 'InvalidRequestError': -32600, 'MethodNotFou
 
 
 def run(ck: Check, prog: Program) -> None:
+    from .common import dispatcher_program
+    prog = dispatcher_program(prog)
     roles = dispatchers(prog)
     ck.explain('The exception-class → error-class table is extracted from the handlers of dispatch / the per-element chain '
                '(handler inflow computed by the escape analysis, constructed error classes resolved) and compared with the '
